@@ -49,11 +49,15 @@ func drawStore(r *rand.Rand) store.Cfg {
 
 // GenQuery draws (window, query, data) for a profile.
 func GenQuery(r *rand.Rand, profile string, depthBonus int, pInstant float64) (gen.Window, string, []store.Series, int64, int64, bool) {
+	return GenQueryOpt(r, profile, depthBonus, pInstant, false)
+}
+
+func GenQueryOpt(r *rand.Rand, profile string, depthBonus int, pInstant float64, noStartEnd bool) (gen.Window, string, []store.Series, int64, int64, bool) {
 	p := gen.ProfileFor(profile)
 	p.Depth += depthBonus
 	for tries := 0; ; tries++ {
 		w := gen.GenWindow(r, pInstant, true)
-		g := &gen.G{R: r, P: p, Start: w.Start, End: w.End, Step: w.Step}
+		g := &gen.G{R: r, P: p, Start: w.Start, End: w.End, Step: w.Step, NoStartEnd: noStartEnd}
 		if w.Step == 0 {
 			g.Step = 15000
 		}
